@@ -184,7 +184,7 @@ type decodeArgs struct {
 	V    json.RawMessage `json:"v"`
 }
 
-var decodeTypes = []string{"Mapping", "MappingWithEquals", "Labels", "HostsList", "StringList", "StringOrNumberList", "HealthCheckTest", "Options", "DeviceCount", "UlimitsConfig", "ShellCommand"}
+var decodeTypes = []string{"Mapping", "MappingWithEquals", "Labels", "HostsList", "StringList", "StringOrNumberList", "HealthCheckTest", "Options", "DeviceCount", "UlimitsConfig", "ShellCommand", "SSHConfig"}
 
 func strPtrMap(m map[string]*string) any {
 	out := map[string]any{}
@@ -263,6 +263,14 @@ func realDecode(raw json.RawMessage) any {
 		if x != nil {
 			res = strList(x)
 		}
+	case "SSHConfig":
+		var x types.SSHConfig
+		err = x.DecodeMapstructure(v)
+		l := []any{}
+		for _, k := range x {
+			l = append(l, map[string]any{"id": k.ID, "path": k.Path})
+		}
+		res = l
 	case "DeviceCount":
 		var x types.DeviceCount
 		err = x.DecodeMapstructure(v)
